@@ -670,3 +670,51 @@ Example nv_estimate_return :
   targets (snd (run_ops_est st0 (full 1 nv_tree))) = map Some (native nv_tree) /\
   length (rs (fst (run_ops_est st0 (full 1 nv_tree)))) = 2.
 Proof. vm_compute. split; reflexivity. Qed.
+
+(* ------------------------------------------------------------------ thread schedules *)
+(* whatever the interleaving, each thread sees exactly the run of its own operations *)
+Lemma run_sched_proj sched : forall ss t,
+  fst (run_sched ss sched) t = fst (run_ops (ss t) (proj t sched)) /\
+  proj t (snd (run_sched ss sched)) = snd (run_ops (ss t) (proj t sched)).
+Proof.
+  induction sched as [|[t0 o] r IH]; intros ss t; cbn [run_sched proj filter map fst snd].
+  - cbn. auto.
+  - destruct (run_op (ss t0) o) as [s1 u] eqn:E.
+    specialize (IH (tupd ss t0 s1) t).
+    destruct (run_sched (tupd ss t0 s1) r) as [ss2 us] eqn:E2. cbn [fst snd] in *.
+    unfold proj in *. cbn [filter fst].
+    destruct (Nat.eqb_spec t0 t) as [->|Hne].
+    + cbn [map snd run_ops]. rewrite E.
+      unfold tupd in IH at 1 2. rewrite Nat.eqb_refl in IH.
+      destruct (run_ops s1 (map snd (filter (fun p : nat * op => fst p =? t) r))) as [s3 us3] eqn:E3.
+      cbn [fst snd] in *. destruct IH as [IH1 IH2]. split; [exact IH1|]. now rewrite IH2.
+    + unfold tupd in IH at 1 2. destruct (Nat.eqb_spec t t0) as [->|_]; [congruence|]. exact IH.
+Qed.
+
+(* for all thread schedules: if every thread performs the operations of a (recover-free) call tree, every
+   return of every thread goes to its real caller, however the threads are interleaved *)
+Theorem threads_return_to_real_callers : forall (trees : nat -> call) (sched : list (nat * op)) (t : nat),
+  proj t sched = full 1 (trees t) ->
+  no_recover (trees t) = true ->
+  targets (proj t (snd (run_sched (fun _ => st0) sched))) = map Some (native (trees t)) /\
+  rs (fst (run_sched (fun _ => st0) sched) t) = [].
+Proof.
+  intros trees sched t Hp Hn.
+  destruct (run_sched_proj sched (fun _ => st0) t) as [H1 H2]. rewrite H1, H2, Hp.
+  destruct (program_returns_to_real_callers (trees t) Hn) as (s' & outs & Hr & Ht & Hrs).
+  rewrite Hr. cbn. auto.
+Qed.
+
+(* non-vacuity: two threads, operations interleaved one by one *)
+Fixpoint zip2 (a b : list op) : list (nat * op) :=
+  match a, b with
+  | x :: a', y :: b' => (1, x) :: (2, y) :: zip2 a' b'
+  | [], _ => map (fun y => (2, y)) b
+  | _, [] => map (fun x => (1, x)) a
+  end.
+Example nv_two_threads :
+  let trees := fun t => if Nat.eqb t 1 then nv_tree else Call 200 (HM false) [Call 201 (HM false) [] [Call 0 HP [] []]] [] in
+  let sched := zip2 (full 1 (trees 1)) (full 1 (trees 2)) in
+  proj 1 sched = full 1 (trees 1) /\ proj 2 sched = full 1 (trees 2) /\
+  targets (proj 2 (snd (run_sched (fun _ => st0) sched))) = map Some (native (trees 2)).
+Proof. vm_compute. repeat split; reflexivity. Qed.
